@@ -281,6 +281,11 @@ def r28d(ctx, run):
                     c.path = recv.path
                     return c
             if isinstance(recv, list):
+                if m == "collect":
+                    return recv         # a PathBuf collected from components: still the list of its components
+                if m == "starts_with" and isinstance(args[0], (list, PS)):
+                    b_ = list(args[0]) if isinstance(args[0], list) else list(comps(args[0]))
+                    return list(recv[:len(b_)]) == b_
                 if m == "filter":
                     return [x for x in recv if self.call_closure(args[0], [x]) is not False]
                 if m == "next":
